@@ -11,7 +11,7 @@ import common
 
 def run(ctx):
     common.repo_on_path()
-    from Pyro5 import server, client, config
+    from Pyro5 import server, client, config, errors
     rng = ctx.sub_rng("stale-tb")
     shared = ValueError("shared instance")
 
@@ -41,6 +41,7 @@ def run(ctx):
         for ser in ("serpent", "json", "marshal", "msgpack"):
             config.SERIALIZER = ser
             with client.Proxy(uri) as p:
+                p._pyroTimeout = 10.0       # watchdog: a server that does not answer must become a failing input, not a hang
                 order = [rng.choice(["fail_alpha", "fail_beta", "fail_gamma"]) for _ in range(5)]
                 for i, name in enumerate(order):
                     kind = rng.choice(["call", "batch"])
@@ -54,6 +55,10 @@ def run(ctx):
                         got = None
                     except ValueError as e:
                         got = "".join(getattr(e, "_pyroTraceback", []) or [])
+                    except errors.TimeoutError:
+                        ctx.fail("no-reply:builtins.ValueError", "%s/%s: %s raised ValueError remotely but the caller got no reply "
+                                 "(ended by the rig's watchdog)" % (ser, kind, name), {"serializer": ser, "order": order, "kind": kind})
+                        return
                     ctx.evaluations += 1
                     if got is None:
                         ctx.fail("exception-not-raised", "%s/%s: %s did not raise" % (ser, kind, name), {"serializer": ser, "order": order})
